@@ -16,5 +16,7 @@ pub mod field_chip;
 mod gates;
 pub mod params;
 pub(crate) mod util;
+#[cfg(feature = "verif-hooks")]
+pub mod verif_hooks;
 
 pub use field_chip::*;
